@@ -507,3 +507,219 @@ def classify_C07(run, d):
             run.notes.append(note)
         return "-"
     return None
+
+
+# ------------------------------------------------------------------------------------------
+def check_C19(tier, seed, replay=None):
+    """generation is deterministic: repeated runs and repeated in-process builds give identical bytes"""
+    import subprocess, hashlib, re, tempfile
+    from peg import dump_groups, pack_text
+    run = Run("C19", tier, seed)
+    rng = random.Random(seed)
+    K = 8 if tier == "quick" else 40
+    specs = F.c07_specs(rng, 300 if tier == "quick" else 3000)
+    groups = [F.c07_group(i + 1, sp) for i, sp in enumerate(specs)]
+    # the F8 witness and grammars with several cycles where a leader has to be chosen
+    from peg import Gram
+    def handwritten(gi, build):
+        g = Gram(gi)
+        build(g)
+        g.disp = [""] * len(g.rules)
+        g.compute_args()
+        return g
+    extra = []
+    extra.append(handwritten(len(groups) + 1, lambda g: setattr(g, "rules", [
+        g.choice([g.seq([g.ref(2), g.lit([F.A])]), g.lit([])]), g.seq([g.ref(1), g.ref(3)]), g.choice([g.seq([g.ref(2), g.lit([99])]), g.lit([100])])])))
+    for _ in range(150 if tier == "quick" else 1500):
+        nr = rng.randint(3, 4)
+        sp = [(rng.choice(["X/e", "eX", "e?X", "X", "(e/'')X", "X{}", "l:X"]), rng.randint(1, nr), rng.choice(["a?", "''", "a"]), rng.random() < 0.8) for _ in range(nr)]
+        extra.append(F.c07_group(len(groups) + len(extra) + 1, sp))
+    groups += extra
+    # design level: which grammars are sensitive to the order in which rules are visited (TLC, all orders)
+    gp = os.path.join(P.workdir(), "groups.ndjson")
+    dump_groups(groups, gp)
+    chunks = [groups[i::12] for i in range(12)]
+
+    def tlc(chunk):
+        pth = os.path.join(P.workdir(), "gr%d.ndjson" % chunk[0].gi)
+        dump_groups(chunk, pth)
+        return P.run_tlc("LeftRecOrders", P.T1_CFG, {"groups.ndjson": ("path", pth)}, workers=1, timeout=1800, heap="4g")
+    res = P.parallel(tlc, [c for c in chunks if c], workers=12)
+    sens, states, trans = [], 0, 0
+    for r in res:
+        if "DONE" not in r["out"]:
+            raise P.Inconclusive("LeftRecOrders did not finish:\n" + r["out"][-2000:])
+        for m in re.finditer(r'"SENS (.*)"', r["out"]):
+            sens.append(json.loads(m.group(1).replace('\\"', '"'))["gi"])
+        states += r.get("distinct", 0)
+        trans += r.get("generated", 0)
+    sens_set = set(sens)
+    chosen = [g for g in groups if g.gi in sens_set]
+    others = [g for g in groups if g.gi not in sens_set]
+    rng.shuffle(others)
+    chosen += others[: (60 if tier == "quick" else 600)]
+    pigeon = P.build_pigeon()
+    flagsets = [["-support-left-recursion"], ["-support-left-recursion", "-optimize-parser"], ["-support-left-recursion", "-optimize-grammar"]]
+    d = tempfile.mkdtemp(prefix="c19-", dir=P.workdir())
+    texts = {}
+    jobs = []
+    for g in chosen:
+        pth = os.path.join(d, "g%d.peg" % g.gi)
+        texts[g.gi] = pack_text([g])
+        with open(pth, "w") as f:
+            f.write(texts[g.gi])
+        for fi, fl in enumerate(flagsets if g.gi in sens_set else flagsets[:1]):
+            jobs.append((g, pth, fl))
+    # big packs: many rules (maps beyond one bucket), with the optimizer
+    for bi in range(3 if tier == "quick" else 12):
+        pk = others[bi * 40:(bi + 1) * 40]
+        if not pk:
+            continue
+        pth = os.path.join(d, "pack%d.peg" % bi)
+        with open(pth, "w") as f:
+            f.write(pack_text(pk))
+        for fl in (["-support-left-recursion"], ["-support-left-recursion", "-optimize-grammar", "-alternate-entrypoints", ",".join(x.sname() for x in pk)]):
+            jobs.append((pk[0], pth, fl))
+
+    def runk(job):
+        g, pth, fl = job
+        outs = set()
+        rcs = set()
+        for _ in range(K):
+            p = subprocess.run([pigeon] + fl + [pth], stdout=subprocess.PIPE, stderr=subprocess.PIPE, env=P.ENV, timeout=120)
+            outs.add(hashlib.sha256(p.stdout + b"|" + p.stderr).hexdigest())
+            rcs.add(p.returncode)
+        return len(outs), sorted(rcs)
+    res = P.parallel(runk, jobs, workers=16)
+    nviol = 0
+    for (g, pth, fl), (nd, rcs) in zip(jobs, res):
+        if nd > 1:
+            nviol += 1
+            rd = os.path.join(P.VERIF, "replays", "C19")
+            os.makedirs(rd, exist_ok=True)
+            rp = os.path.join(rd, "nondet_%d_%s.json" % (g.gi, hashlib.sha1(" ".join(fl).encode()).hexdigest()[:6]))
+            json.dump(dict(property="C19", grammar=open(pth).read(), flags=fl, runs=K, distinct_outputs=nd, exit_codes=rcs), open(rp, "w"), indent=1)
+            run.violation(rp, "%d distinct outputs in %d runs" % (nd, K))
+    # repeated builds inside one process (hook)
+    pv = P.build_pigeon("verif")
+    reqs = []
+    for i, g in enumerate(chosen):
+        reqs.append(json.dumps(dict(id=g.gi, text=list(texts[g.gi].encode()), times=K, lr=True, optimize=(i % 2 == 0), entry=[g.sname()])))
+    p = subprocess.run([pv], input=("\n".join(reqs) + "\n").encode(), stdout=subprocess.PIPE, stderr=subprocess.PIPE, env=dict(P.ENV, PIGEON_VERIF="rebuild"), timeout=1800)
+    if p.returncode != 0:
+        raise P.Inconclusive("hook failed: " + p.stderr.decode(errors="replace")[-500:])
+    inproc = 0
+    for ln in p.stdout.decode().splitlines():
+        r = json.loads(ln)
+        inproc += 1
+        if len(set(r.get("digests", []))) > 1:
+            rd = os.path.join(P.VERIF, "replays", "C19")
+            os.makedirs(rd, exist_ok=True)
+            rp = os.path.join(rd, "inproc_%d.json" % r["id"])
+            json.dump(dict(property="C19", grammar=texts[r["id"]], digests=r["digests"]), open(rp, "w"), indent=1)
+            run.violation(rp, "in-process builds differ")
+    cov = dict(evaluations=len(jobs) * K + inproc * K, distinct_nontrivial=len(chosen), states=max(states, 1), transitions=max(trans, 1),
+               rule="TLC (LeftRecOrders.tla) evaluates pigeon's transcribed analysis under every rule-visiting order for each grammar of the C07 family and reports the order-sensitive ones; those (all flag sets), a sample of the others, and packs of 40 groups (> 80 rules, with -optimize-grammar) are run K times through the real command (Go randomises map iteration per process) and K times inside one process through the hook; outputs must be byte-identical; non-trivial = a grammar with at least one rule reference",
+               samples=[dict(grammar=texts[g.gi], order_sensitive=g.gi in sens_set) for g in chosen[:3]],
+               order_sensitive_grammars=len(sens_set), grammars_run=len(chosen), command_jobs=len(jobs), runs_per_job=K, inprocess_requests=inproc)
+    return run.finish("exploration", cov, ["schedules (map iteration orders) are sampled on the real code, enumerated only in the model"])
+
+
+# ------------------------------------------------------------------------------------------
+C15_CHARS = [0x40, 0x41, 0x5A, 0x5B, 0x5C, 0x60, 0x61, 0x7A, 0x7B, 0x4B, 0x6B, 0x53, 0x73, 0x49, 0x69, 0x30, 0x39, 0x20, 0x7F, 0x0A,
+             0x212A, 0x17F, 0x130, 0x131, 0xE9, 0xC9, 0xDF, 0x3A3, 0x3C3, 0x3C2, 0x1C5, 0xFFFD]
+C15_UCL = ["Lu", "Ll", "L", "N", "Nd", "Latin", "Greek", "P", "Zs", "Lt", "Cc"]
+
+
+def c15_class(rng):
+    nm = rng.randint(0, 3)
+    chars = [rng.choice(C15_CHARS) for _ in range(nm)]
+    rngs = []
+    for _ in range(rng.randint(0, 2)):
+        a, b = rng.choice(C15_CHARS), rng.choice(C15_CHARS)
+        if rng.random() < 0.85 and a > b:
+            a, b = b, a
+        rngs += [a, b]
+    ucl = [rng.choice(C15_UCL) for _ in range(rng.choice([0, 0, 1, 1, 2]))]
+    return chars, rngs, ucl, rng.random() < 0.5, rng.random() < 0.6
+
+
+def c15_text(chars, rngs, ucl, inv, ic):
+    from peg import cls_char
+    s = "[" + ("^" if inv else "")
+    for i in range(0, len(rngs), 2):
+        s += cls_char(rngs[i]) + "-" + cls_char(rngs[i + 1])
+    s += "".join(cls_char(c) for c in chars)
+    for u in ucl:
+        s += ("\\p" + u) if len(u) == 1 else ("\\p{" + u + "}")
+    return s + "]" + ("i" if ic else "")
+
+
+def check_C15(tier, seed, replay=None):
+    """-optimize-basic-latin is a pure optimisation of character classes (real vs real, all 128 runes)"""
+    from peg import Gram
+    from rt import pairwise
+    run = Run("C15", tier, seed)
+    rng = random.Random(seed)
+    n = 400 if tier == "quick" else 6000
+    classes = []
+    # exhaustive part: every single member / single range over the boundary alphabet, all four flag combinations
+    small = [0x40, 0x41, 0x5A, 0x5B, 0x60, 0x61, 0x7A, 0x7B, 0x212A, 0x17F, 0x130]
+    for inv in (False, True):
+        for ic in (False, True):
+            for a in small:
+                classes.append(([a], [], [], inv, ic))
+                if tier != "quick" or ic:
+                    for b in small:
+                        classes.append(([], [a, b], [], inv, ic))
+            for u in C15_UCL:
+                classes.append(([], [], [u], inv, ic))
+    # the witnesses of the repaired defect F15
+    classes += [([], [0x5A, 0x61], [], False, True), ([], [0x40, 0x5A], [], False, True), ([0x212A], [], [], False, True),
+                ([0x130], [], [], False, True), ([], [], ["Lu"], False, True)]
+    while len(classes) < n + 600:
+        classes.append(c15_class(rng))
+    groups = []
+    for i, (chars, rngs, ucl, inv, ic) in enumerate(classes):
+        g = Gram(i + 1)
+        txt = c15_text(chars, rngs, ucl, inv, ic)
+        g.rules = [g.mk(k="cls", s=list(chars), rng=list(rngs), inv=inv, ic=ic, want=list(txt.encode()))]
+        g.disp = [""]
+        g.compute_args()
+        g.maydiverge = False
+        groups.append(g)
+    inputs = [[r] for r in range(128)]
+    for r in [0x212A, 0x17F, 0x130, 0x131, 0xE9, 0xC9, 0xDF, 0x3A3, 0x3C3, 0x1C5, 0xFFFD, 0x20AC, 0x1F600]:
+        inputs.append(list(chr(r).encode()))
+    inputs += [[0x80], [0xFF], [0xC3], [0xED, 0xA0, 0x80], [0xC0, 0xAF], []]
+    options = [opt(), opt(allowinv=True)]
+    nin = len(inputs)
+    pigeon = P.build_pigeon()
+    packs = [groups[i:i + 400] for i in range(0, len(groups), 400)]
+    variants = []
+    for pi, pk in enumerate(packs):
+        for fl in ([], ["-optimize-basic-latin"], ["-optimize-parser"], ["-optimize-parser", "-optimize-basic-latin"]):
+            variants.append(P.Variant(len(variants) + 1, "p%d" % pi, pk, fl))
+
+    def prep(v):
+        if not v.generate(pigeon):
+            raise P.Inconclusive("pigeon rejected a C15 pack: " + v.gen_err)
+        if not v.build():
+            raise P.Inconclusive("build failed: " + v.build_err)
+        plan = [[gx, ii, oi] for gx in range(len(v.groups)) for ii in range(nin) for oi in (0, 1)]
+        return v.run(inputs, options, plan)
+    run.obs = P.parallel(prep, variants)
+    run.variants, run.groups, run.inputs, run.options = variants, groups, inputs, options
+    pairs = [(i, i + 1) for i in range(0, len(variants), 2)]
+    div, npairs = pairwise(run, pairs, fields=("status", "ok", "end", "val", "errs"))
+    nviol = 0
+    for d in div:
+        nviol += 1
+        if nviol <= 25:
+            run.violation(run.replay_path(d), "class %s input %s: with/without -optimize-basic-latin differ (%s)" % (
+                bytes(groups[d["gi"] - 1].N(groups[d["gi"] - 1].rules[0])["want"]).decode(), inputs[d["ii"] - 1], d["df"]))
+    cov = dict(programs=len(variants), disagreements_checked=npairs, evaluations=npairs, distinct_nontrivial=len(classes),
+               rule="character classes: every single member and every single range over the case-boundary alphabet {@ A Z [ ` a z { KELVIN LONG-S DOTTED-I} and every Unicode class of a list, in all four ^/i combinations (exhaustive), the witnesses of the repaired defect F15, and random classes with up to 3 members, 2 ranges, 2 Unicode classes; inputs: ALL 128 Basic Latin runes, 13 non-ASCII runes, 5 ill-formed byte strings, the empty input, with AllowInvalidUTF8 on/off; the parser generated with the flag must decide exactly like the one generated without it (also under -optimize-parser)",
+               samples=[dict(cls=bytes(g.N(g.rules[0])["want"]).decode()) for g in groups[:: max(1, len(groups) // 8)][:8]],
+               classes=len(classes), decisions_compared=npairs, violating=nviol, exhaustive=False)
+    return run.finish("translation_validation", cov, ["real-vs-real as the statement says; the verdict does not depend on any model of case folding"])
